@@ -146,6 +146,10 @@ impl Default for UptimeTracker {
 }
 
 fn get_unix_time_ms() -> Option<u64> {
+    #[cfg(feature = "verif-hooks")]
+    if let Some(injected_ms) = crate::verif_hooks::clock::get() {
+        return Some(injected_ms);
+    }
     let now = SystemTime::now();
     now.duration_since(UNIX_EPOCH)
         .ok()
